@@ -1,7 +1,7 @@
 (* Proofs/PowerShell.v — the PowerShell quoting after the repair: a value containing an active
    character, a single quote, or starting with `@`, is put in '...' with every ' doubled; it then
    reads back (Spec/Readers.v read_powershell_sp) as exactly the value. *)
-From CV Require Import Base.Str Model.Common Spec.Readers.
+From CV Require Import Base.Str Gen.Tables Model.Common Model.Shells Spec.Readers.
 Local Open Scope nat_scope.
 
 Definition double_sq (v : str) : str := flat_map (fun c => if beq c c_sq then [c_sq; c_sq] else [c]) v.
@@ -59,4 +59,30 @@ Proof.
     + destruct blank; reflexivity.
     + intros d Hd. destruct (Hall d Hd) as (H1 & H2 & _). auto.
     + destruct blank; auto.
+Qed.
+
+(* the replacer table of the source (regenerated) is the doubling of single quotes *)
+Definition sq_table_ok (t : table) : bool :=
+  forallb (fun c => str_eqb (rep1 t c) (if beq c c_sq then [c_sq; c_sq] else [c])) all_bytes.
+Lemma replace1_double_sq t v : sq_table_ok t = true -> replace1 t v = double_sq v.
+Proof.
+  intro H. unfold replace1, double_sq. apply flat_map_ext. intro c.
+  pose proof (forall_bytes _ H c) as E. cbv beta in E. apply str_eqb_true in E. exact E.
+Qed.
+
+(* the regenerated tables have the shape the proof needs *)
+Lemma powershell_tables_ok : ps_chars_ok powershell_ActionRawValues_any1 = true /\ sq_table_ok powershell_quoter = true.
+Proof. split; vm_compute; reflexivity. Qed.
+
+Lemma powershell_quote_is_fixed v : powershell_quote v = ps_quote_fixed powershell_ActionRawValues_any1 v.
+Proof.
+  unfold powershell_quote, ps_quote_fixed, ps_needs_quote. rewrite (replace1_double_sq _ v (proj2 powershell_tables_ok)).
+  destruct (_ || _); reflexivity.
+Qed.
+
+(* the inserted text of the model, read back: exactly the (sanitised, non-empty) value *)
+Theorem powershell_roundtrip v (blank : bool) : v <> [] ->
+  read_powershell_sp (powershell_quote v ++ (if blank then [c_sp] else [])) = Some (v, blank).
+Proof.
+  intro H. rewrite powershell_quote_is_fixed. apply powershell_fixed_roundtrip; [exact (proj1 powershell_tables_ok)|exact H].
 Qed.
